@@ -90,3 +90,12 @@ def run_struct(ctx):
     structlint.struct_obligations(ctx, rid, scope)
     for mod, node, key, msg in purity.memo_findings(ctx.repo, scope):
         ctx.ob(rid, f"no cache of a mutable result: {key}", False, f"{mod.rel}:{getattr(node, 'lineno', 0)}", msg)
+    # hand-written keyed memo tables of the classes in the wider scope: when a cached value reads more of its source than
+    # the entry for its own key, every writer of the source must drop the memo as a whole
+    own = set(SCOPE.get(ctx.prop, []))
+    classes = sorted({ci.name for lst in ctx.repo.classes.values() for ci in lst if ci.module.rel in scope and ci.module.rel not in own})
+    for fi, node, key, msg in purity.memo_table_findings(ctx.repo, classes):
+        # outside the codec modules only the partial-invalidation clause is armed: per-instance slots there are mostly
+        # plain state (session, connection), which the keyed / staleness clauses would misread as memos
+        if fi.module.rel in scope and "dropped as a whole" in key:
+            ctx.ob(rid, f"memo table: {key}", False, f"{fi.module.rel}:{getattr(node, 'lineno', 0)}", msg)
